@@ -22,9 +22,9 @@ func (pass *FilterSchemas) Process(schemas []*ast.Schema) ([]*ast.Schema, error)
 	}), nil
 }
 
-func (pass *FilterSchemas) processSchema(schema *ast.Schema, allowList *orderedmap.Map[string, struct{}]) *ast.Schema {
+func (pass *FilterSchemas) processSchema(schema *ast.Schema, allowList *orderedmap.Map[ast.RefType, struct{}]) *ast.Schema {
 	schema.Objects = schema.Objects.Filter(func(_ string, object ast.Object) bool {
-		return allowList.Has(object.SelfRef.String())
+		return allowList.Has(object.SelfRef)
 	})
 
 	// the entry point can not designate an object that was filtered out
@@ -40,9 +40,10 @@ func (pass *FilterSchemas) processSchema(schema *ast.Schema, allowList *orderedm
 // processed schemas. This set is built by recursively exploring the
 // "entrypoint objects" and any object they might reference, each of these
 // references contributing to the allow list.
-func (pass *FilterSchemas) buildAllowList(schemas ast.Schemas, entrypoints []ObjectReference) *orderedmap.Map[string, struct{}] {
-	allowList := orderedmap.New[string, struct{}]()
-	rootObjects := orderedmap.New[string, ast.Object]()
+func (pass *FilterSchemas) buildAllowList(schemas ast.Schemas, entrypoints []ObjectReference) *orderedmap.Map[ast.RefType, struct{}] {
+	// objects are told apart by package and name: joined by a dot, `k8s` + `io.Pod` would be `k8s.io` + `Pod`
+	allowList := orderedmap.New[ast.RefType, struct{}]()
+	rootObjects := orderedmap.New[ast.RefType, ast.Object]()
 
 	for _, allowedObj := range entrypoints {
 		obj, found := schemas.LocateObject(allowedObj.Package, allowedObj.Object)
@@ -50,7 +51,7 @@ func (pass *FilterSchemas) buildAllowList(schemas ast.Schemas, entrypoints []Obj
 			continue
 		}
 
-		rootObjects.Set(obj.SelfRef.String(), obj)
+		rootObjects.Set(obj.SelfRef, obj)
 	}
 
 	visitor := &Visitor{
@@ -60,7 +61,7 @@ func (pass *FilterSchemas) buildAllowList(schemas ast.Schemas, entrypoints []Obj
 				return def, nil
 			}
 
-			rootObjects.Set(def.Ref.String(), referredObj)
+			rootObjects.Set(referredObj.SelfRef, referredObj)
 
 			return def, nil
 		},
@@ -70,7 +71,7 @@ func (pass *FilterSchemas) buildAllowList(schemas ast.Schemas, entrypoints []Obj
 				return def, nil
 			}
 
-			rootObjects.Set(referredObj.SelfRef.String(), referredObj)
+			rootObjects.Set(referredObj.SelfRef, referredObj)
 
 			return def, nil
 		},
@@ -82,10 +83,10 @@ func (pass *FilterSchemas) buildAllowList(schemas ast.Schemas, entrypoints []Obj
 		}
 
 		objects := rootObjects
-		rootObjects = orderedmap.New[string, ast.Object]()
+		rootObjects = orderedmap.New[ast.RefType, ast.Object]()
 
-		objects.Iterate(func(key string, object ast.Object) {
-			if allowList.Has(object.SelfRef.String()) {
+		objects.Iterate(func(key ast.RefType, object ast.Object) {
+			if allowList.Has(object.SelfRef) {
 				return
 			}
 
